@@ -218,6 +218,14 @@ def ref_predict(cfg, snap, kind, prefix="iso", stats=None, lib=None, ids=None):
 TOL = 1e-14
 
 
+def tau_bound(s0, tau):
+    """sqrt(s0^2 + tau^2) as ANY correct implementation may form it: the naive expression (whose
+    squares lose most of their bits when they are subnormal: a tau of 1e-160 has a square of
+    1e-320) or the scaled one (math.hypot, exact there).  The larger of the two is the bound -
+    the property bounds the real number, not one particular rounding of it."""
+    return max(math.sqrt(s0 * s0 + tau * tau), math.hypot(s0, tau))
+
+
 def check_sigma(prior, post, tau, limit, where):
     """prior/post: nested lists of [mu, sigma] values (decoded). Raises Violation (C06)."""
     for i, (tp, tq) in enumerate(zip(prior, post)):
@@ -231,7 +239,7 @@ def check_sigma(prior, post, tau, limit, where):
                     # one, per model, in known_findings.json)
                     cls += ":nan_with_gamma_1e308"
                 raise Violation("C06", cls, dict(where, team=i, player=j, prior=enc(s0), post=enc(s1)))
-            bound = math.sqrt(s0 * s0 + tau * tau)
+            bound = tau_bound(s0, tau)
             if s1 > bound * (1 + TOL):
                 raise Violation(
                     "C06",
